@@ -33,9 +33,11 @@ def main():
         "N > 127, partitions with >= 1 break, tables with at least one fixed and one sampled column."
     )
     any_cfgs = ["MC_any_2x3", "MC_any_3x2", "MC_any_1x5"] + ([] if quick else ["MC_any_4x2"])
-    big_cfgs = ["MC_id_2x1", "MC_id_2x2", "MC_id_2x127", "MC_id_2x128", "MC_id_2x129", "MC_id_2x200", "MC_rev_3x127", "MC_rev_4x130"]
+    # SNV counts straddle both narrow-integer boundaries (127/128 for a signed, 255/256 for an unsigned 8-bit table)
+    big_cfgs = ["MC_id_2x1", "MC_id_2x2", "MC_id_2x127", "MC_id_2x128", "MC_id_2x129", "MC_id_2x200", "MC_rev_3x127", "MC_rev_4x130",
+                "MC_id_2x256", "MC_id_2x257", "MC_id_2x300"]
     if not quick:
-        big_cfgs += ["MC_id_2x256", "MC_id_2x300", "MC_id_6x150"]
+        big_cfgs += ["MC_id_6x150", "MC_rev_2x520"]
     mutants = [("Sweep", "Mutant_int8_2x129"), ("Sweep", "Mutant_int8_2x200"), ("FixHom", "Mutant_fixhom_strict")]
     fix_cfgs = ["FixHom_quick_a", "FixHom_quick_b"] if quick else ["FixHom_thorough_a", "FixHom_thorough_b", "FixHom_quick_b"]
     br_cfg = "Breaks_quick" if quick else "Breaks_thorough"
